@@ -3,6 +3,7 @@ Simulated HD44780 cell matrix (mock LiquidCrystal*) vs host LCD.buffer after eve
 from __future__ import annotations
 
 import json
+import re
 
 from .. import engine, fw, trace, witness
 from ..common import Report, rng_for, run_cases, seed, tier
@@ -94,7 +95,7 @@ def gen(rng, hazards=()):
     k = 0
     for _ in range(rng.randint(4, 16)):
         mark = len(body)
-        if mark and wrap_from is not None:
+        if mark and wrap_from is not None and wrap_from < len(body):
             # the previous call (and its marker) go inside a block whose condition is only known at run time
             # (`sel` is an ADC reading: 0 here) - taken, not taken, or a one-iteration loop
             head = rng.choice(["if sel > 5:", "if sel == 0:", "if sel == 0:", "for rep in range(1):", "if sel > 5:\n    pass\nelse:"])
@@ -125,11 +126,22 @@ def gen(rng, hazards=()):
             row = rng.randint(0, rows - 1)
             txt = text_for(cols)
             kw = []
-            if rng.random() < 0.6:
-                kw.append(f"align=\"{rng.choice(['left', 'center', 'right'])}\"")
+            align_var = None
+            if rng.random() < 0.08:
+                # the alignment named by a variable that is changed after the call (rejected today; if it is ever accepted, the
+                # call must use the value the variable has when it runs - also on the second loop() pass)
+                align_var = f"al{k}"
+                L.append(f"{align_var} = \"{rng.choice(['center', 'right'])}\"")
+                body.append("if sel == 0:")
+                body.append(f"    {align_var} = \"left\"")
+                kw.append(f"align={align_var}")
+            elif rng.random() < 0.6:
+                kw.append(f"align=\"{rng.choice(['left', 'center', 'right', 'Right', 'CENTER'])}\"")
             if rng.random() < 0.4:
                 kw.append(f"clear_row={rng.choice(['True', 'False'])}")
             body.append(f"{nm}.line({arg(row)}, {arg(txt)}" + "".join(", " + x for x in kw) + ")")
+            if align_var:
+                body.append(f"{align_var} = \"right\"")
         elif kind == "message":
             top = text_for(cols)
             bottom = text_for(cols)
@@ -190,6 +202,14 @@ def gen(rng, hazards=()):
         elif kind == "brightness":
             if lcd["bl"] is None:
                 continue
+            if rng.random() < 0.4:
+                # the backlight / display state is changed by a LITERAL call inside a block whose condition is only known at run
+                # time (taken or not), and the brightness is set afterwards: the pin follows the state the display really has
+                body.append(f"{nm}.brightness({rng.choice([50, 128, 255])})")
+                body.append(rng.choice([f"{nm}.backlight(True)", f"{nm}.display(True)", f"{nm}.backlight(True)"]))
+                cond = rng.choice(["if sel > 5:", "if sel == 0:", "for rep in range(sel):", "for rep in range(1):"])
+                body.append(cond)
+                body.append("    " + rng.choice([f"{nm}.backlight(False)", f"{nm}.display(False)"]))
             body.append(f"{nm}.brightness({arg(rng.choice([0, 1, 128, 200, 255]))})")
         else:
             slot = rng.randint(0, 7)
@@ -377,6 +397,11 @@ def run_case(case):
 
 def judge(rep, res, hazard=None):
     w = {"script.py": res["script"], "sketch.cpp": res.get("cpp") or "", "detail.json": json.dumps({k: res.get(k) for k in ("problems", "fw_status", "diag", "exc", "py_exc")}, indent=1, default=str)}
+    if res["transpile"] == "rejected" and re.search(r"align=al\d+", res["script"]):
+        # the alignment-by-variable probe: rejecting it is fine
+        rep.case(None, False)
+        rep.count("align_variable_probe_rejected")
+        return
     if res["transpile"] != "ok":
         rep.case(None, False)
         rep.violation(f"in-range LCD script not transpiled: {res['transpile']} {res.get('exc')}", w, key="transpile:" + str(res.get("exc"))[:40])
